@@ -8,7 +8,7 @@ GENS = ['tok']
 DRIVERS = ['drv_tok']
 PROPS = 'Srctools.Props.C02'
 RULE = ("exhaustive: all strings of length <= L over the 17-symbol alphabet SIGMA17 in both escape modes "
-        "(L=4 quick, 5 thorough); random: strings over all Unicode scalar values (length <= 200) and over SIGMA17 "
+        "(L=4 quick, 5 thorough) and of length <= 4 over the 13-symbol alphabet SIGMA_LB (Unicode line-boundary and blank characters, NUL); random: strings over all Unicode scalar values (length <= 200) and over SIGMA17 "
         "(length <= 40), plain and embedded after/before other tokens under random tokenizer options with "
         "allow_escapes=True. A case = (string, multiline[, prefix, suffix, options]); non-trivial = contains at "
         "least one character that escape_text rewrites or that is special to the tokenizer; distinct by content.")
@@ -21,6 +21,9 @@ ASSUMPTIONS = ['str.casefold is not involved (no directives in these inputs)']
 
 SIGMA17 = ['\\', '"', "'", '\r', '\n', '\t', '\v', '\b', '\f', '\a', '?', '/', 'n', 'a', ' ', '\u00e9', '\U0001F600']
 SPECIAL = set('\\"\'\r\n\t\v\b\f\a?/')
+# every character str.splitlines()/str.isspace()-style library shortcuts treat as a line boundary or blank,
+# plus the characters next to the escape symbols: a second, smaller exhaustive alphabet
+SIGMA_LB = ['\n', '\r', '\\', '"', 'a', '\x1c', '\x1d', '\x1e', '\x85', '\u2028', '\u2029', '\x00', '\xa0']
 
 
 def _rand_scalar(rng):
@@ -35,12 +38,18 @@ def gen_strings(ctx):
     for n in range(0, L + 1):
         for t in itertools.product(SIGMA17, repeat=n):
             yield ''.join(t)
+    for n in range(1, 5):
+        for t in itertools.product(SIGMA_LB, repeat=n):
+            yield ''.join(t)
 
 
 def gen_random(ctx, n):
     rng = ctx.rng
     for _ in range(n):
-        if rng.random() < 0.5:
+        r = rng.random()
+        if r < 0.15:
+            yield ''.join(rng.choice(SIGMA_LB + SIGMA17) for _ in range(rng.randrange(0, 41)))
+        elif r < 0.5:
             yield ''.join(rng.choice(SIGMA17) for _ in range(rng.randrange(0, 41)))
         else:
             k = rng.randrange(0, 201)
